@@ -10,6 +10,7 @@ fn main() {
     let args = Args::parse();
     match args.sub.as_str() {
         "c02" => c02::run(&args),
+        "c02a" => c02::run_addrset(&args),
         "c01v" => c01::run_verifier(&args),
         "c01e" => c01::run_e2e(&args),
         "c01s" => c01::run_sessions(&args),
@@ -1206,6 +1207,86 @@ mod c02 {
         }
         Ok(())
     }
+
+    // ------------------------------------------------------------------ AddrSet.tla behaviours
+    pub fn run_addrset(args: &Args) {
+        drive(args, addrset);
+    }
+
+    fn names(v: &Value, k: &str) -> BTreeSet<String> {
+        fset(v, k).into_iter().collect()
+    }
+
+    fn addrset(c: &Value, rng: &mut ChaCha8Rng) -> R {
+        // concrete addresses for the names; c1 / c2 share the id and a 30-byte prefix across the inline/heap cutoff
+        let id: u64 = [0u64, 7, 0x544f52, u64::MAX][rng.random_range(0..4)];
+        let mut data = vec![0u8; 31];
+        rng.fill(&mut data[..]);
+        let ipkind = if rng.random_bool(0.5) { "ip4" } else { "ip6" };
+        let world: Vec<(&str, TransportAddr)> = vec![
+            ("r1", random_taddr(rng, "relay")),
+            ("i1", random_taddr(rng, ipkind)),
+            ("c1", TransportAddr::Custom(CustomAddr::from_parts(id, &data[..30]))),
+            ("c2", TransportAddr::Custom(CustomAddr::from_parts(id, &data[..31]))),
+        ];
+        let addr_of = |n: &str| world.iter().find(|(k, _)| *k == n).unwrap_or_else(|| panic!("harness: unknown address name {n}")).1.clone();
+        let name_of = |a: &TransportAddr| world.iter().find(|(_, v)| v == a).map(|(k, _)| k.to_string()).unwrap_or_else(|| format!("foreign:{a}"));
+        let pk = SecretKey::from_bytes(&rng.random()).public();
+        let mut v = EndpointAddr::new(pk);
+        let steps = c.get("steps").and_then(|s| s.as_array()).expect("steps");
+        let mut input = String::new();
+        for (i, st) in steps.iter().enumerate() {
+            let (op, args) = (fs(st, "op"), fset(st, "args"));
+            input.push_str(&format!("{op}{args:?} "));
+            v = match op {
+                "from_parts" => EndpointAddr::from_parts(pk, args.iter().map(|n| addr_of(n))),
+                "with_addrs" => v.with_addrs(args.iter().map(|n| addr_of(n))),
+                "with_relay_url" => match addr_of(&args[0]) {
+                    TransportAddr::Relay(u) => v.with_relay_url(u),
+                    _ => panic!("harness: not a relay address"),
+                },
+                "with_ip_addr" => match addr_of(&args[0]) {
+                    TransportAddr::Ip(a) => v.with_ip_addr(a),
+                    _ => panic!("harness: not an ip address"),
+                },
+                other => panic!("harness: unknown op {other}"),
+            };
+            let view = st.get("view").expect("view");
+            let got: BTreeSet<String> = v.addrs.iter().map(&name_of).collect();
+            if got != names(view, "addrs") || v.addrs.len() != got.len() {
+                return Err(mm(&format!("addrs after step {i} ({op})"), format!("{:?}", names(view, "addrs")), format!("{got:?}"), &input));
+            }
+            if v.is_empty() != fb(view, "empty") {
+                return Err(mm(&format!("is_empty after step {i}"), fb(view, "empty"), v.is_empty(), &input));
+            }
+            let ips: BTreeSet<String> = v.ip_addrs().map(|a| name_of(&TransportAddr::Ip(*a))).collect();
+            let relays: BTreeSet<String> = v.relay_urls().map(|u| name_of(&TransportAddr::Relay(u.clone()))).collect();
+            if ips != names(view, "ips") || relays != names(view, "relays") {
+                return Err(mm(&format!("ip_addrs / relay_urls after step {i}"), format!("{:?} / {:?}", names(view, "ips"), names(view, "relays")), format!("{ips:?} / {relays:?}"), &input));
+            }
+            if v.id != pk {
+                return Err(mm("id is kept by the builders", pk, v.id, &input));
+            }
+        }
+        // canonical form: the same set given in another order, with duplicates
+        let Some(last) = steps.last() else { return Ok(()) };
+        let mut again: Vec<TransportAddr> = names(last.get("view").expect("view"), "addrs").iter().map(|n| addr_of(n)).collect();
+        let dup = again.clone();
+        again.extend(dup);
+        for i in (1..again.len()).rev() {
+            let j = rng.random_range(0..=i);
+            again.swap(i, j);
+        }
+        let w = EndpointAddr::from_parts(pk, again);
+        same("equal sets are equal values", &v, &w, &input)?;
+        same("equal values hash equally", &hash_of(&v), &hash_of(&w), &input)?;
+        same("equal values have one postcard encoding", &postcard::to_stdvec(&v).expect("ser"), &postcard::to_stdvec(&w).expect("ser"), &input)?;
+        same("equal values have one JSON encoding", &serde_json::to_string(&v).expect("ser"), &serde_json::to_string(&w).expect("ser"), &input)?;
+        let back: EndpointAddr = serde_rt(&v, "postcard", &input)?;
+        same("postcard round trip identity", &v, &back, &input)?;
+        let back: EndpointAddr = serde_rt(&v, "json", &input)?;
+        same("JSON round trip identity", &v, &back, &input)
+    }
 }
 
 // =====================================================================================
@@ -1595,14 +1676,18 @@ mod c01 {
                 Ok(Ok(conn)) => {
                     let id = w.name_of(&conn.remote_id());
                     // make sure the acceptor saw the connection before closing
-                    let sres = tokio::time::timeout(Duration::from_secs(10), rx.recv()).await;
-                    match sres {
-                        Ok(Some(Ok(pk))) => {
-                            obs.server_accepted = true;
-                            obs.server_remote = w.name_of(&pk);
+                    obs.server_error = "no event".into();
+                    let deadline = tokio::time::Instant::now() + Duration::from_secs(10);
+                    while let Ok(Some(ev)) = tokio::time::timeout_at(deadline, rx.recv()).await {
+                        match ev {
+                            Ok(pk) => {
+                                obs.server_accepted = true;
+                                obs.server_remote = w.name_of(&pk);
+                                obs.server_error.clear();
+                                break;
+                            }
+                            Err(e) => obs.server_error = e,
                         }
-                        Ok(Some(Err(e))) => obs.server_error = e,
-                        _ => obs.server_error = "no event".into(),
                     }
                     conn.close(0u32.into(), b"done");
                     (true, id, String::new())
@@ -1721,8 +1806,14 @@ mod c01 {
                 Ok(Ok(conn)) => {
                     o.ok = true;
                     o.remote = w.name_of(&conn.remote_id());
-                    if let Ok(Some(Ok(pk))) = tokio::time::timeout(Duration::from_secs(10), rx.recv()).await {
-                        o.server_remote = if pk == dialer_key.public() { "dialer".into() } else { w.name_of(&pk) };
+                    // the acceptor's report for this connection; failure reports of earlier (refused)
+                    // dials to the same endpoint may still be in flight and are skipped
+                    let deadline = tokio::time::Instant::now() + Duration::from_secs(10);
+                    while let Ok(Some(ev)) = tokio::time::timeout_at(deadline, rx.recv()).await {
+                        if let Ok(pk) = ev {
+                            o.server_remote = if pk == dialer_key.public() { "dialer".into() } else { w.name_of(&pk) };
+                            break;
+                        }
                     }
                     // leave time for the session tickets that follow the handshake to arrive
                     tokio::time::sleep(Duration::from_millis(150)).await;
